@@ -3,6 +3,7 @@ CONSTANTS
   Sizes = {0, 36, 73, 4096}
   MaxOps = 5
   MaxSets = 3
+  Limits = {1000000}
   Defects = {}
 SPECIFICATION Spec
 INVARIANTS NoError RoundTrip TablesEqual SizeBound SensitiveKept EmitCase
